@@ -101,14 +101,24 @@ Definition enc0 (ops : list op) : str := to_er7 t25 e25 (r_store (run25 init_rst
 (* A~B~C: assigning the first repetition gives X~B~C (the F7 witness of the pinned tree, fixed by
    0f895c9); assigning an absent one appends; deleting the second gives A~C *)
 Example C09_in_place_instance :
-  let abc := [ONewSeg TOLERANT "PID"; OSetIndex 0 (nm "pid_3") 0 (HText "A"); OSetIndex 0 (nm "pid_3") 1 (HText "B");
-              OSetIndex 0 (nm "pid_3") 2 (HText "C"); OSetAttr 0 (nm "pid_5") (HText "n")] in
+  let abc := [ONewSeg TOLERANT "PID"; OSetIndex 0 (nm "pid_3") 0%Z (HText "A"); OSetIndex 0 (nm "pid_3") 1%Z (HText "B");
+              OSetIndex 0 (nm "pid_3") 2%Z (HText "C"); OSetAttr 0 (nm "pid_5") (HText "n")] in
   enc0 abc = unbs "PID|||A~B~C||n" /\
   enc0 (abc ++ [OSetAttr 0 (nm "pid_3") (HText "X")]) = unbs "PID|||X~B~C||n" /\
-  enc0 (abc ++ [OSetIndex 0 (nm "pid_3") 1 (HText "X")]) = unbs "PID|||A~X~C||n" /\
-  enc0 (abc ++ [OSetIndex 0 (nm "pid_3") 5 (HText "X")]) = unbs "PID|||A~B~C~X||n" /\
-  enc0 (abc ++ [ODelIndex 0 (nm "pid_3") 1]) = unbs "PID|||A~C||n" /\
+  enc0 (abc ++ [OSetIndex 0 (nm "pid_3") 1%Z (HText "X")]) = unbs "PID|||A~X~C||n" /\
+  enc0 (abc ++ [OSetIndex 0 (nm "pid_3") 5%Z (HText "X")]) = unbs "PID|||A~B~C~X||n" /\
+  enc0 (abc ++ [ODelIndex 0 (nm "pid_3") 1%Z]) = unbs "PID|||A~C||n" /\
   enc0 (abc ++ [OSetListIndex 0 1 (HText "X")]) = unbs "PID|||A~X~C||n".
+Proof. vm_compute. repeat split. Qed.
+
+(* negative proxy indexes address from the end, and a datatype object replaces in place (F20, fixed) *)
+Example C09_negative_index_instance :
+  let abcd := [ONewSeg TOLERANT "PID"; OSetIndex 0 (nm "pid_3") 0%Z (HText "A"); OSetIndex 0 (nm "pid_3") 1%Z (HText "B");
+               OSetIndex 0 (nm "pid_3") 2%Z (HText "C"); OSetIndex 0 (nm "pid_3") 3%Z (HText "D")] in
+  enc0 (abcd ++ [OSetIndex 0 (nm "pid_3") (-2)%Z (HText "X")]) = unbs "PID|||A~B~X~D" /\
+  enc0 (abcd ++ [ODelIndex 0 (nm "pid_3") (-1)%Z]) = unbs "PID|||A~B~C" /\
+  enc0 (abcd ++ [OSetIndex 0 (nm "pid_3") (-9)%Z (HText "X")]) = unbs "PID|||A~B~C~D~X" /\
+  enc0 [ONewSeg TOLERANT "PID"; OSetAttr 0 (nm "pid_8") (HText "A"); OSetAttr 0 (nm "pid_8") (HDt "IS" "B")] = unbs "PID||||||||B".
 Proof. vm_compute. repeat split. Qed.
 
 (* F19: Field('OBX_5').varies_1 = 'a' - the component is listed, its value is not encoded *)
